@@ -25,6 +25,8 @@ import (
 	"strings"
 
 	"com.tuntun.rangers/node/src/common"
+	"com.tuntun.rangers/node/src/consensus/access"
+	"com.tuntun.rangers/node/src/consensus/groupsig"
 	"com.tuntun.rangers/node/src/middleware/types"
 	"com.tuntun.rangers/node/src/service"
 	"com.tuntun.rangers/node/src/storage/account"
@@ -52,6 +54,7 @@ type world struct {
 	ghost     map[string]int64 // id -> applied + added - refunded, from the receipts
 	blocks    int
 	keyBytes  []string
+	fixedQh   uint64 // when non-zero: the query height of viewsCheck (sibling states are asked at one height)
 }
 
 func (w *world) acctIdx(b []byte) int {
@@ -1107,6 +1110,17 @@ func (w *world) step(r *hx.Rng, res *hx.Result, cs *hx.Cases) {
 			}
 		}
 	}
+	// sibling: a second, different block on the same parent at the same height (a fork), built after the main one
+	doSib := r.Intn(3) == 0
+	parentRoot := w.Root
+	ghost0 := map[string]int64{}
+	for k, v := range w.ghost {
+		ghost0[k] = v
+	}
+	if doSib {
+		w.fixedQh = h + []uint64{300, 1000000, 301}[r.Intn(3)]
+	}
+	defer func() { w.fixedQh = 0 }()
 	br := w.runCaseBlock(r, res, h, g, castor, members, pre, input)
 	if br.panicked != "" {
 		if br.panicked != "universe" {
@@ -1119,6 +1133,64 @@ func (w *world) step(r *hx.Rng, res *hx.Result, cs *hx.Cases) {
 	envTerm := w.envCoq()
 	input["keys"] = w.keyBytes
 	cs.Add(fmt.Sprintf("CS %s %s %s %s", envTerm, w.heightsCoq(), w.stateCoq(pre), hx.CoqList([]string{"(" + br.term + ")"})), input)
+
+	if doSib {
+		rootA := w.Root
+		var gB []gtx
+		for _, x := range g { // the same requests as fresh transactions
+			y := x
+			y.tx = newTx(x.tx.Type, x.tx.Source, x.tx.Data)
+			gB = append(gB, y)
+		}
+		// ... plus one that changes the set of active proposers: a new proposer, or the refund of a whole proposer stake
+		freeAcct := 0
+		for a := 6; a <= len(w.accts); a++ {
+			if len(pre.holders(a)) == 0 {
+				freeAcct = a
+				break
+			}
+		}
+		xid := w.pickId(r, pre, false)
+		xm := types.Miner{Id: w.ids[xid-1], PublicKey: []byte{1, 2}, VrfPublicKey: []byte{3}, Type: 1, Stake: 2000, Account: w.acctBytes(freeAcct)}
+		xd, _ := json.Marshal(xm)
+		extra := gtx{kind: "apply", src: w.senders[0], tx: newTx(types.TransactionTypeMinerApply, w.srcHex(w.senders[0]), string(xd)), id: xid, stake: 2000, acct: freeAcct,
+			term: fmt.Sprintf("TApply %d%%N true 1%%N %d%%N 2000%%N %d%%N true", w.senders[0], xid, freeAcct),
+			desc: map[string]interface{}{"tx": "apply", "src": w.senders[0], "type": 1, "id": xid, "stake": 2000, "account": freeAcct}}
+		for _, m := range pre.miners {
+			if m.K == 1 && m.Stat == 0 && indexOf(w.senders, m.Acct) >= 0 && r.Intn(2) == 0 {
+				data, _ := json.Marshal(map[string]string{"Amount": "18446744073709551615", "MinerId": common.ToHex(w.ids[m.I-1])})
+				extra = gtx{kind: "refund", src: m.Acct, tx: newTx(types.TransactionTypeMinerRefund, w.srcHex(m.Acct), string(data)), id: m.I, amt: "18446744073709551615",
+					term: fmt.Sprintf("TRefund %d%%N true (Some 18446744073709551615%%N) %d%%N", m.Acct, m.I),
+					desc: map[string]interface{}{"tx": "refund", "src": m.Acct, "id": m.I, "amount": "all"}}
+			}
+		}
+		gB = append([]gtx{extra}, gB...)
+		descB := make([]interface{}, len(gB))
+		for i := range gB {
+			descB[i] = gB[i].desc
+		}
+		inputB := map[string]interface{}{"height": h, "txs": descB, "before": pre.js(), "sibling-of": input["txs"]}
+		mainNW, ghostA := w.nodeWorld, w.ghost
+		sibADB, err := account.NewAccountDB(parentRoot, mainNW.TDB)
+		if err != nil {
+			panic(err)
+		}
+		w.nodeWorld = &nodeWorld{TDB: mainNW.TDB, ADB: sibADB, Root: parentRoot}
+		w.ghost = ghost0
+		brB := w.runCaseBlock(r, res, h, gB, castor, nil, pre, inputB)
+		rootB := w.Root
+		w.nodeWorld, w.ghost = mainNW, ghostA
+		if brB.panicked == "" {
+			envB := w.envCoq()
+			inputB["keys"] = w.keyBytes
+			cs.Add(fmt.Sprintf("CS %s %s %s %s", envB, w.heightsCoq(), w.stateCoq(pre), hx.CoqList([]string{"(" + brB.term + ")"})), inputB)
+			res.Count("sibling block", fmt.Sprintf("sib|%s", strings.Join(brB.classes, ",")), true)
+			inputB["rootA"], inputB["rootB"] = rootA.Hex(), rootB.Hex()
+			w.purityCheck(res, rootA, rootB, w.fixedQh, inputB)
+		} else if brB.panicked != "universe" {
+			res.Violate("C20/total:panic", "executing the sibling block panicked: "+brB.panicked, inputB)
+		}
+	}
 
 	reached := false
 	var kinds []string
@@ -1259,6 +1331,9 @@ func (w *world) viewsCheck(post ostate, res *hx.Result, input map[string]interfa
 	}
 	// totals used for leader election
 	qh := h + []uint64{0, 300, 299, 1000000, 150}[r.Intn(5)]
+	if w.fixedQh != 0 {
+		qh = w.fixedQh
+	}
 	total, detail := service.MinerManagerImpl.GetProposerTotalStakeWithDetail(qh, w.ADB)
 	var want uint64
 	cnt := 0
@@ -1274,6 +1349,8 @@ func (w *world) viewsCheck(post ostate, res *hx.Result, input map[string]interfa
 	if total != want || len(detail) != cnt {
 		res.Violate("C20/totals:proposer-total", fmt.Sprintf("GetProposerTotalStakeWithDetail(%d) = %d over %d proposers; sum over active records = %d over %d", qh, total, len(detail), want, cnt), input)
 	}
+	// the consumer side: what leader election actually asks (consensus/access MinerPoolReader, by state root)
+	readerCount := w.readerChecks(post, res, input, qh, cnt)
 	props, vals := service.MinerManagerImpl.GetAllMinerIdAndAccount(qh, w.ADB)
 	var all [2][]string
 	for k, mp := range []map[string]common.Address{vals, props} {
@@ -1304,7 +1381,7 @@ func (w *world) viewsCheck(post ostate, res *hx.Result, input map[string]interfa
 		}
 	}
 	vtotal, _ := service.MinerManagerImpl.GetValidatorsStake(w.ids, w.ADB)
-	term := fmt.Sprintf("%d%%N (VW %s %s %s %d%%N %d%%N %s %s %d%%N)", qh, hx.CoqList(ba), nlist(iters[0]), nlist(iters[1]), total, len(detail),
+	term := fmt.Sprintf("%d%%N (VW %s %s %s %d%%N %d%%N %s %s %d%%N)", qh, hx.CoqList(ba), nlist(iters[0]), nlist(iters[1]), total, readerCount,
 		hx.CoqList(all[0]), hx.CoqList(all[1]), vtotal)
 	return term, map[string]interface{}{"queryHeight": qh, "byAccount": baDesc, "iter": iters, "proposerTotal": total, "proposerCount": len(detail), "validatorsStake": vtotal}
 }
@@ -1489,4 +1566,118 @@ func oddSourceSearch(r *hx.Rng, res *hx.Result) {
 		res.Note("non-canonical Source executed without admission: one address held miners under a 20-byte and a 21-byte account string; both refunds of 100 were scheduled under distinct escrow keys that BytesToAddress maps to one address; at the due height the address was credited " + got.String() + " wei and the 21-byte entry stayed in the refund account: " + fmt.Sprint(len(left) > 0) + " (unreachable through verifyTransactionSign, which only admits the canonical hex of the signer)")
 	}
 	res.Count(strings.SplitN(class, " ", 2)[0], class, true)
+}
+
+var readerConvertBroken = false
+
+// readerChecks: MinerPoolReader (the functions round_sign / processor / group creation call) on the committed state
+// w.Root against the records of that state. Returns GetTotalStake (the proposer count used by the VRF threshold).
+func (w *world) readerChecks(post ostate, res *hx.Result, input map[string]interface{}, qh uint64, cnt int) uint64 {
+	reader := access.NewMinerPoolReader()
+	got := reader.GetTotalStake(qh, w.Root)
+	if got != uint64(cnt) {
+		res.Violate("C20/totals:access-reader-disagrees:GetTotalStake", fmt.Sprintf("MinerPoolReader.GetTotalStake(%d, root) = %d; the state of that root holds %d active proposer records", qh, got, cnt), input)
+	}
+	if readerConvertBroken {
+		return got
+	}
+	func() {
+		defer func() {
+			if x := recover(); x != nil {
+				readerConvertBroken = true
+				res.Note("MinerPoolReader.GetProposeMiner / GetCandidateMiners panic on the harness's synthetic public keys (" + fmt.Sprint(x) + "): only GetTotalStake is observed")
+			}
+		}()
+		for i, id := range w.ids {
+			if len(id) != 32 {
+				continue
+			}
+			md := reader.GetProposeMiner(groupsig.DeserializeID(id), w.Root)
+			rec := post.find(1, i+1)
+			switch {
+			case (md == nil) != (rec == nil):
+				res.Violate("C20/totals:access-reader-disagrees:GetProposeMiner", fmt.Sprintf("GetProposeMiner(id %d) found=%v, the proposer registry of that state found=%v", i+1, md != nil, rec != nil), input)
+			case md != nil && (md.Stake != rec.Stake || md.ApplyHeight != rec.Apply || md.MinerType != 1):
+				res.Violate("C20/totals:access-reader-disagrees:GetProposeMiner", fmt.Sprintf("GetProposeMiner(id %d) = stake %d apply %d, record stake %d apply %d", i+1, md.Stake, md.ApplyHeight, rec.Stake, rec.Apply), input)
+			}
+		}
+		want := map[string]uint64{}
+		for _, m := range post.miners {
+			if m.K == 0 && m.Stat == 0 && qh > m.Apply {
+				want[common.ToHex(w.ids[m.I-1])] = m.Stake
+			}
+		}
+		cands := reader.GetCandidateMiners(qh, w.Root)
+		seen := map[string]bool{}
+		for _, c := range cands {
+			var hexId string
+			for _, id := range w.ids { // short ids come back padded to 32 bytes
+				if bytes.Equal(groupsig.DeserializeID(id).Serialize(), c.ID.Serialize()) {
+					hexId = common.ToHex(id)
+				}
+			}
+			seen[hexId] = true
+			if st, ok := want[hexId]; !ok || st != c.Stake {
+				res.Violate("C20/totals:access-reader-disagrees:GetCandidateMiners", fmt.Sprintf("GetCandidateMiners(%d) lists %s with stake %d against the validator records (normal, applyHeight < height)", qh, hexId, c.Stake), input)
+			}
+		}
+		for k := range want {
+			if !seen[k] {
+				res.Violate("C20/totals:access-reader-disagrees:GetCandidateMiners", fmt.Sprintf("GetCandidateMiners(%d) misses validator %s", qh, k), input)
+			}
+		}
+	}()
+	return got
+}
+
+// activeProposers: the count over the records of the state at root (GetMinerById per id, no iterator)
+func (w *world) activeProposers(root common.Hash, qh uint64) uint64 {
+	adb, err := account.NewAccountDB(root, w.TDB)
+	if err != nil {
+		panic(err)
+	}
+	n := uint64(0)
+	for _, id := range w.ids {
+		if m := service.MinerManagerImpl.GetMinerById(id, 1, adb); m != nil && m.Status == 0 && m.ApplyHeight <= qh {
+			n++
+		}
+	}
+	return n
+}
+
+// purityCheck: two DIFFERENT states (siblings of one parent) asked at the SAME height, in both orders and repeatedly,
+// interleaved with another height: every answer must be the count of the state asked about, and the answer for one
+// (state, height) must not depend on what was asked before.
+func (w *world) purityCheck(res *hx.Result, rootA, rootB common.Hash, qh uint64, input map[string]interface{}) {
+	reader := access.NewMinerPoolReader()
+	type q struct {
+		root common.Hash
+		h    uint64
+		name string
+	}
+	seq := []q{{rootA, qh, "A"}, {rootB, qh, "B"}, {rootA, qh, "A"}, {rootB, qh, "B"}, {rootB, qh, "B"}, {rootA, qh, "A"},
+		{rootB, qh + 1, "B'"}, {rootB, qh, "B"}, {rootA, qh + 1, "A'"}, {rootA, qh, "A"}, {rootB, qh, "B"}}
+	first := map[string]uint64{}
+	var trace []string
+	for _, x := range seq {
+		got := reader.GetTotalStake(x.h, x.root)
+		want := w.activeProposers(x.root, x.h)
+		trace = append(trace, fmt.Sprintf("%s@%d=%d(want %d)", x.name, x.h, got, want))
+		key := fmt.Sprintf("%s@%d", x.name, x.h)
+		if f, ok := first[key]; ok && f != got {
+			input["queries"] = trace
+			res.Violate("C20/totals:access-reader-impure:GetTotalStake", fmt.Sprintf("GetTotalStake for one (state, height) answered %d and later %d: the answer depends on earlier queries", f, got), input)
+		} else if !ok {
+			first[key] = got
+		}
+		if got != want {
+			input["queries"] = trace
+			res.Violate("C20/totals:access-reader-disagrees:GetTotalStake", fmt.Sprintf("sibling states at one height: GetTotalStake(%d, state %s) = %d, that state holds %d active proposer records", x.h, x.name, got, want), input)
+		}
+	}
+	if w.activeProposers(rootA, qh) != w.activeProposers(rootB, qh) {
+		res.Histogram["sibling states with different proposer counts"]++
+	} else {
+		res.Histogram["sibling states with equal proposer counts"]++
+	}
 }
